@@ -61,15 +61,26 @@ struct Stats
   std::unique_ptr<OnlineVariance> vr;
   long long n = 0;        // the harness's own count of samples since the last reset (input knowledge)
   double maxabs = 1;
-  Stats(bool v, int w, int pi, bool viaSetter) : var(v), W(w), p(pi)
+  // how: 0 constructed with W; 1 constructed without a window then configured; 2 / 3 constructed with (or first configured to)
+  // another window size w0, then reconfigured to W before any sample
+  Stats(bool v, int w, int pi, int how, int w0 = 0) : var(v), W(w), p(pi)
   {
     if (var) {
-      vr.reset(viaSetter ? new OnlineVariance(PREC[p]) : new OnlineVariance(PREC[p], W));
-      if (viaSetter) {vr->setWindowSize(W);}
+      vr.reset(how == 0 ? new OnlineVariance(PREC[p], W) : how == 2 ? new OnlineVariance(PREC[p], w0) : new OnlineVariance(PREC[p]));
+      if (how == 3) {vr->setWindowSize(w0);}
+      if (how != 0) {vr->setWindowSize(W);}
     } else {
-      avg.reset(viaSetter ? new OnlineAverage(PREC[p]) : new OnlineAverage(PREC[p], W));
-      if (viaSetter) {avg->setWindowSize(W);}
+      avg.reset(how == 0 ? new OnlineAverage(PREC[p], W) : how == 2 ? new OnlineAverage(PREC[p], w0) : new OnlineAverage(PREC[p]));
+      if (how == 3) {avg->setWindowSize(w0);}
+      if (how != 0) {avg->setWindowSize(W);}
     }
+  }
+  // setWindowSize on an empty estimator (fresh or just reset)
+  std::string resize(int w)
+  {
+    if (var) {vr->setWindowSize(w);} else {avg->setWindowSize(w);}
+    W = w;
+    return vh::Ev("resize").i("W", w).b("avail", a().isAvailable()).done();
   }
   Stats(const Stats & o) : var(o.var), W(o.W), p(o.p), shift(o.shift), n(o.n), maxabs(o.maxabs)
   {
@@ -163,16 +174,23 @@ static void runScript(const char * path, vh::Out & so, vh::Out & ro)
       }
     } else {
       bool var = h[1] == "var";
-      Stats o(var, (int)vh::I(h[2]), (int)vh::I(h[3]), h.size() > 4 && h[4] == "setter");
+      Stats o(var, (int)vh::I(h[2]), (int)vh::I(h[3]), h.size() > 4 && h[4] == "setter" ? 1 : 0);
       so.put(vh::Ev("Reset").str("kind", h[1]).i("W", o.W).i("p", o.p));
       for (++at; at < sc.size() && sc[at][0] != "R"; ++at) {
         const auto & t = sc[at];
-        if (t[0] == "U") {so.puts(o.update(vh::I(t[1])));} else if (t[0] == "Z") {so.puts(o.reset());} else if (t[0] == "X") {
+        if (t[0] == "U") {so.puts(o.update(vh::I(t[1])));} else if (t[0] == "Z") {so.puts(o.reset());} else if (t[0] == "S") {
+          so.puts(o.resize((int)vh::I(t[1])));
+        } else if (t[0] == "X") {
           so.put(vh::Ev("save"));
           for (size_t k = 1; k < t.size(); ++k) {
             Stats c = o; so.puts(c.update(vh::I(t[k]))); so.put(vh::Ev("restore"));
           }
           {Stats c = o; so.puts(c.reset()); so.put(vh::Ev("restore"));}
+          if (o.n == 0) {
+            for (int w : {o.W + 1, o.W > 2 ? o.W - 1 : o.W + 3}) {
+              Stats c = o; so.puts(c.resize(w)); so.puts(c.update(5)); so.puts(c.update(-9)); so.puts(c.update(7)); so.put(vh::Ev("restore"));
+            }
+          }
         }
       }
     }
@@ -184,7 +202,7 @@ static void randomStats(vh::Rng & r, vh::Out & so)
   bool var = r.coin();
   int W = (int)(r.coin(1, 3) ? r.range(var ? 2 : 1, 6) : r.range(var ? 2 : 1, 64));
   int p = (int)r.range(0, NPREC - 1);
-  Stats o(var, W, p, r.coin(1, 4));
+  Stats o(var, W, p, (int)r.pick(std::vector<int>{0, 0, 0, 1, 1, 2, 3}), (int)r.range(var ? 2 : 1, 64));
   o.shift = (int)r.pick(std::vector<int>{0, 0, 10, 20});       // |value|/precision up to 200, 2e5, 1e8
   so.put(vh::Ev("Reset").str("kind", var ? "var" : "avg").i("W", W).i("p", p).i("shift", o.shift));
   int len = (int)r.range(0, 10 * W);
@@ -192,7 +210,12 @@ static void randomStats(vh::Rng & r, vh::Out & so)
   if (o.shift == 20) {mag = (int)r.pick(std::vector<int>{3, 20, 95});}
   int resetEvery = (int)r.range(1, 3 * W + 3);
   for (int s = 0; s < len; ++s) {
-    if (r.range(0, resetEvery) == 0) {so.puts(o.reset()); continue;}
+    if (r.range(0, resetEvery) == 0) {
+      so.puts(o.reset());
+      // the window may be reconfigured while the estimator is empty
+      if (r.coin(1, 3)) {W = (int)(r.coin() ? r.range(var ? 2 : 1, 6) : r.range(var ? 2 : 1, 64)); so.puts(o.resize(W)); resetEvery = (int)r.range(1, 3 * W + 3);}
+      continue;
+    }
     long long q = r.range(-4LL * mag, 4LL * mag);
     if (!dyadic(p) && q % 2 == 0) {q += 1;}        // never an exact multiple of a decimal precision
     if (!dyadic(p) && q % 4 == 0) {q += 1;}
